@@ -41,6 +41,8 @@ def run(idx, rep, tier):
     c15.metadata_merge(idx, rep, "R1")
     n, msg = c11.run_sequences(idx, 3)
     rep.check(msg is None, "R2", "csvpath/managers/files/file_manager.py::the named file a group runs on is the content registered last", msg or f"{n} operation sequences", "csvpath/managers/files/file_manager.py")
+    from . import c06
+    c06.r1(idx, K.as_rule(rep, "R1"))
     rep.stats["exhaustive"] = True
 
 
